@@ -22,7 +22,7 @@ package lockedfile
 //@   ensures flag & 64 == 0 ==> fsExists == old(fsExists)
 //@   ensures flag & 64 == 0 && flag & 512 == 0 ==> fsData == old(fsData) && fsSize == old(fsSize)
 //@   ensures forall p int {fsSize[p]} {fsBytes[p]} :: p != sid(name) ==> fsSize[p] == old(fsSize)[p] && fsBytes[p] == old(fsBytes)[p]
-//@   modifies fsExists, fsData, fsSize, fsBytes, fdPath, fdMode, fdClosed, failBudget
+//@   modifies fsExists, fsData, fsSize, fsBytes, fdPath, fdMode, fdClosed, failBudget, gCleanup
 //@   at call os.OpenFile#1: requires flag & 512 == 0
 //@   at call (*os.File).Truncate#1: requires fdMode[f] != 0 && !fdClosed[f]
 //@   at call (*os.File).Close#1: requires fdMode[f] == 0
@@ -43,7 +43,7 @@ package lockedfile
 //@   ensures flag & 64 == 0 ==> fsExists == old(fsExists)
 //@   ensures flag & 64 == 0 && flag & 512 == 0 ==> fsData == old(fsData) && fsSize == old(fsSize)
 //@   ensures forall p int {fsSize[p]} {fsBytes[p]} :: p != sid(name) ==> fsSize[p] == old(fsSize)[p] && fsBytes[p] == old(fsBytes)[p]
-//@   modifies fsExists, fsData, fsSize, fsBytes, fdPath, fdMode, fdClosed, failBudget, F_S_lockedfile_File_*
+//@   modifies fsExists, fsData, fsSize, fsBytes, fdPath, fdMode, fdClosed, failBudget, gCleanup, F_S_lockedfile_File_*
 //@   ensures err != nil ==> f == nil
 //@   ensures err == nil ==> f != nil && fresh(f) && !f.closed && f.osFile.File != nil && fresh(f.osFile.File) && !fdClosed[f.osFile.File] && fdPath[f.osFile.File] == sid(name) && fdMode[f.osFile.File] == wantMode(flag)
 //@   ensures forall g int {fdMode[g]} {fdClosed[g]} :: !fresh(g) ==> fdMode[g] == old(fdMode)[g] && fdClosed[g] == old(fdClosed)[g]
@@ -54,21 +54,21 @@ package lockedfile
 //@   names (f, err)
 //@   ensures fsExists == old(fsExists) && fsData == old(fsData) && fsSize == old(fsSize)
 //@   ensures old(fsExists)[name] ==> fsSize[name] == old(fsSize)[name]
-//@   modifies fsExists, fsData, fsSize, fsBytes, fdPath, fdMode, fdClosed, failBudget, F_S_lockedfile_File_*
+//@   modifies fsExists, fsData, fsSize, fsBytes, fdPath, fdMode, fdClosed, failBudget, F_S_lockedfile_File_*, gCleanup
 //@   ensures err == nil ==> f != nil && fresh(f) && !f.closed && fresh(f.osFile.File) && !fdClosed[f.osFile.File] && fdPath[f.osFile.File] == sid(name) && fdMode[f.osFile.File] == 1
 //@   ensures forall g int {fdMode[g]} {fdClosed[g]} :: !fresh(g) ==> fdMode[g] == old(fdMode)[g] && fdClosed[g] == old(fdClosed)[g]
 //@   ensures fsBytes == old(fsBytes) && failBudget == old(failBudget)
 
 //@ func Create
 //@   names (f, err)
-//@   modifies fsExists, fsData, fsSize, fsBytes, fdPath, fdMode, fdClosed, failBudget, F_S_lockedfile_File_*
+//@   modifies fsExists, fsData, fsSize, fsBytes, fdPath, fdMode, fdClosed, failBudget, F_S_lockedfile_File_*, gCleanup
 //@   ensures err == nil ==> f != nil && fresh(f) && !f.closed && fresh(f.osFile.File) && !fdClosed[f.osFile.File] && fdPath[f.osFile.File] == sid(name) && fdMode[f.osFile.File] == 2
 //@   ensures forall g int {fdMode[g]} {fdClosed[g]} :: !fresh(g) ==> fdMode[g] == old(fdMode)[g] && fdClosed[g] == old(fdClosed)[g]
 
 //@ func Edit
 //@   names (f, err)
 //@   ensures forall p int {fsSize[p]} {fsBytes[p]} :: p != sid(name) ==> fsSize[p] == old(fsSize)[p] && fsBytes[p] == old(fsBytes)[p]
-//@   modifies fsExists, fsData, fsSize, fsBytes, fdPath, fdMode, fdClosed, failBudget, F_S_lockedfile_File_*
+//@   modifies fsExists, fsData, fsSize, fsBytes, fdPath, fdMode, fdClosed, failBudget, F_S_lockedfile_File_*, gCleanup
 //@   ensures err != nil ==> f == nil
 //@   ensures err == nil ==> f != nil && fresh(f) && !f.closed && f.osFile.File != nil && fresh(f.osFile.File) && !fdClosed[f.osFile.File] && fdPath[f.osFile.File] == sid(name) && fdMode[f.osFile.File] == 2
 //@   ensures forall g int {fdMode[g]} {fdClosed[g]} :: !fresh(g) ==> fdMode[g] == old(fdMode)[g] && fdClosed[g] == old(fdClosed)[g]
@@ -100,7 +100,7 @@ package lockedfile
 //@ func Transform$1
 //@   requires f != nil && f.osFile.File != nil && fdMode[f.osFile.File] == 2 && !fdClosed[f.osFile.File]
 //@   requires err != nil ==> failBudget == 0
-//@   modifies fsBytes, fsSize, failBudget
+//@   modifies fsBytes, fsSize, failBudget, gCleanup
 //@   at call (*os.File).WriteAt#0: requires fdMode[f] == 2 && !fdClosed[f]
 //@   at call (*os.File).Truncate#0: requires fdMode[f] == 2 && !fdClosed[f]
 //@   ensures old(err) != nil ==> fileIs(fsBytes[fdPath[f.osFile.File]], fsSize[fdPath[f.osFile.File]], old)
@@ -114,7 +114,7 @@ package lockedfile
 //@ func Transform
 //@   requires failBudget == 1
 //@   callee t(b) (r, e): modifies new bytes; bind tOut = r
-//@   modifies fsExists, fsData, fsSize, fsBytes, fdPath, fdMode, fdClosed, failBudget, F_S_lockedfile_File_*
+//@   modifies fsExists, fsData, fsSize, fsBytes, fdPath, fdMode, fdClosed, failBudget, F_S_lockedfile_File_*, gCleanup
 //@   at call io.ReadAll#1: requires fdMode[f.osFile.File] == 2 && !fdClosed[f.osFile.File]
 //@   at call (*os.File).WriteAt#0: requires fdMode[f] == 2 && !fdClosed[f]
 //@   at call (*os.File).Truncate#0: requires fdMode[f] == 2 && !fdClosed[f]
@@ -126,14 +126,14 @@ package lockedfile
 //@ func Read
 //@   names (data, err)
 //@   ensures fsExists == old(fsExists) && fsData == old(fsData) && fsSize == old(fsSize)
-//@   modifies fsExists, fsData, fsSize, fsBytes, fdPath, fdMode, fdClosed, failBudget, F_S_lockedfile_File_*
+//@   modifies fsExists, fsData, fsSize, fsBytes, fdPath, fdMode, fdClosed, failBudget, F_S_lockedfile_File_*, gCleanup
 //@   at call io.ReadAll#1: requires fdMode[f.osFile.File] == 1 && !fdClosed[f.osFile.File] && fdPath[f.osFile.File] == sid(name)
 //@   ensures fsBytes == old(fsBytes)
 //@   ensures err == nil && old(fsExists)[name] ==> fileIs(old(fsBytes)[name], old(fsSize)[name], data)
 
 // io.Copy into a *File: some bytes are written to the locked file (contents left abstract).
 //@ extern io.Copy(dst, src) (written, err)
-//@   modifies fsBytes, fsSize, failBudget, fsWrites, new bytes
+//@   modifies fsBytes, fsSize, failBudget, fsWrites, new bytes, gCleanup
 //@   ensures err == nil ==> fsWrites[fdPath[cast(unbox(dst), File).osFile.File]] == old(fsWrites)[fdPath[cast(unbox(dst), File).osFile.File]] + 1
 //@   ensures forall p int {fsWrites[p]} :: p != fdPath[cast(unbox(dst), File).osFile.File] ==> fsWrites[p] == old(fsWrites)[p]
 //@   ensures forall p int {fsBytes[p]} {fsSize[p]} :: p != fdPath[cast(unbox(dst), File).osFile.File] ==> fsBytes[p] == old(fsBytes)[p] && fsSize[p] == old(fsSize)[p]
@@ -142,7 +142,7 @@ package lockedfile
 // stripped from the open and applied after the lock is held: see openFile).
 //@ func Write
 //@   names (err)
-//@   modifies fsExists, fsData, fsSize, fsBytes, fsWrites, fdPath, fdMode, fdClosed, failBudget, F_S_lockedfile_File_*
+//@   modifies fsExists, fsData, fsSize, fsBytes, fsWrites, fdPath, fdMode, fdClosed, failBudget, F_S_lockedfile_File_*, gCleanup
 //@   ensures err == nil ==> fsWrites[name] > old(fsWrites)[name]
 //@   ensures forall p int {fsWrites[p]} :: p != sid(name) ==> fsWrites[p] == old(fsWrites)[p]
 //@   at call io.Copy#1: requires fdMode[f.osFile.File] == 2 && !fdClosed[f.osFile.File] && fdPath[f.osFile.File] == sid(name)
@@ -158,7 +158,7 @@ package lockedfile
 //@ func (*Mutex).Lock
 //@   names (unlock, err)
 //@   requires mu != nil && mu.Path != ""
-//@   modifies fsExists, fsData, fsSize, fsBytes, fdPath, fdMode, fdClosed, failBudget, F_S_lockedfile_File_*
+//@   modifies fsExists, fsData, fsSize, fsBytes, fdPath, fdMode, fdClosed, failBudget, F_S_lockedfile_File_*, gCleanup
 //@   at call lockedfile.OpenFile#1: requires flag & 3 == 2 && flag & 512 == 0
 //@   ensures fsBytes == old(fsBytes)
 //@ func Lock$1
